@@ -419,7 +419,7 @@ func gen(seed uint64, tier string) {
 	n := 6000
 	big := false
 	if tier == "thorough" {
-		n, big = 30000, true
+		n, big = 60000, true
 	}
 	for c := 0; c < n; c++ {
 		tol := pickTol(r)
